@@ -98,6 +98,15 @@ func cavWith(field string, variant int) Cav {
 			return Cav{Hdr: map[string]string{"x-a": "1"}}
 		}
 		return Cav{Hdr: map[string]string{"x-a": "1", "x-c": "9"}} // adds a key the delegation did not write
+	case "orig":
+		// the delegation WRITES null (a nullable field set to null is a value, not an absent field)
+		switch variant {
+		case 0:
+			return Cav{OrigNull: true}
+		case 1:
+			return Cav{OrigNull: true}
+		}
+		return Cav{Orig: linkNode(3)}
 	case "tags":
 		switch variant {
 		case 0:
@@ -126,7 +135,7 @@ func init() {
 		}
 		for depth := 1; depth <= 4; depth++ {
 			for level := 1; level <= depth; level++ {
-				for _, field := range []string{"link", "tag", "max", "tags", "hdr"} {
+				for _, field := range []string{"link", "tag", "max", "tags", "hdr", "orig"} {
 					for claim := 0; claim < 3; claim++ { // 0 omits, 1 matches, 2 contradicts
 						for mid := 0; mid < 3; mid++ { // intermediate re-statement: 0 none, 1 tighter/equal, 2 looser (escalation)
 							if mid != 0 && level == depth {
@@ -230,13 +239,20 @@ type sessOpts struct {
 	Decoys    int
 	AttFirst  bool // attestation is not the first capability of its token (then it is not considered)
 	RSAAuth   bool
+	WebAuth   bool   // the authority is identified by did:web:example.com (its key wrapped), not by a did:key
+	Lookalike string // suffix making a DID that textually EXTENDS the authority's (".evil.org", ":users:mallory"); used by AttIssuer / Resource "lookalike"
 	TimeShift *[2]int // exp, nbf overrides for the attestation (C03)
 	Now       int
 }
 
 func sessionWorld(seed int64, id int, so sessOpts) (*World, string) {
 	cast := newCast(seed*104729 + int64(id))
-	service := cast.Ed("service")
+	var service *Prin
+	if so.WebAuth {
+		service = cast.Wrapped("service", "did:web:example.com", cast.Ed("servicekey"))
+	} else {
+		service = cast.Ed("service")
+	}
 	now := so.Now
 	if now == 0 {
 		now = int(ucan.Now())
@@ -266,6 +282,9 @@ func sessionWorld(seed int64, id int, so sessOpts) (*World, string) {
 			if so.Resource == "other" {
 				attWith = agent.DID.String()
 			}
+			if so.Resource == "lookalike" {
+				attWith = service.DID.String() + so.Lookalike
+			}
 			target := "acct"
 			if so.Attested == "other" || so.ParentProof == 5 {
 				target = "othertok"
@@ -280,6 +299,11 @@ func sessionWorld(seed int64, id int, so sessOpts) (*World, string) {
 				att.Issuer = service
 			case "stranger":
 				att.Issuer = cast.Ed("mallory")
+			case "lookalike":
+				// a principal whose DID extends the authority's text, with a resolvable key: it may attest on ITS OWN DID only
+				la := cast.Wrapped("lookalike", service.DID.String()+so.Lookalike, cast.Ed("lookalikekey"))
+				att.Issuer = la
+				w.Ctx.KeyResolver[la.DID.String()] = cast.Ed("lookalikekey")
 			case "delegate", "delegate-broken":
 				worker := cast.Ed("worker")
 				att.Issuer = worker
@@ -405,6 +429,20 @@ func init() {
 				}
 			}
 		}
+		// a non-key authority and principals / resources whose DID text extends the authority's
+		for _, iss := range []string{"authority", "lookalike", "stranger"} {
+			for _, res := range []string{"authority", "lookalike"} {
+				for _, suffix := range []string{".evil.org", ":users:mallory"} {
+					for pos := 1; pos <= 2; pos++ {
+						w, label := sessionWorld(o.seed, id, sessOpts{Attested: "this", AttIssuer: iss, Resource: res, Window: "valid", Pos: pos, Resolver: "absent", WebAuth: true, Lookalike: suffix})
+						w.ID = id
+						labels[id] = label + " authority=did:web lookalike=" + suffix
+						worlds = append(worlds, w)
+						id++
+					}
+				}
+			}
+		}
 		if o.tier == "thorough" {
 			r := rand.New(rand.NewSource(o.seed))
 			for i := 0; i < 6000; i++ {
@@ -487,6 +525,7 @@ func init() {
 		}
 		// the same worlds through a real server: WithRevocationChecker -> context -> Provide -> validator
 		var bcases []string
+		nhist := 0
 		for _, w := range worlds {
 			if w.ID%2 == 1 && o.tier != "thorough" {
 				continue
@@ -497,11 +536,29 @@ func init() {
 			b := &Batch{ID: w.ID, W: w, Invs: []string{w.Inv}, Handlers: map[string]string{w.Can: "ok"}}
 			bobs := b.Run(nil)
 			bcases = append(bcases, b.Coq(bobs))
+			// history on ONE server: the invocation is served while nothing is revoked, then the delegation is revoked
+			// and the identical invocation is presented again
+			if len(w.Ctx.Revoked) > 0 && nhist < 40 {
+				nhist++
+				saved := w.Ctx.Revoked
+				realID := w.ID
+				hb := &Batch{ID: w.ID, W: w, Invs: []string{w.Inv}, Handlers: map[string]string{w.Can: "ok"}}
+				_, rendered := hb.RunPhases([]func(){
+					func() { w.Ctx.Revoked = map[string]bool{}; w.ID = 500000 + 2*realID },
+					func() { w.Ctx.Revoked = saved; w.ID = 500000 + 2*realID + 1 },
+				})
+				w.ID = realID
+				w.Ctx.Revoked = saved
+				for k := range rendered {
+					labels[500000+2*realID+k] = labels[realID] + fmt.Sprintf(" — same server, request %d (%s)", k+1, []string{"before the revocation", "after the revocation"}[k])
+				}
+				bcases = append(bcases, rendered...)
+			}
 		}
 		if err := writeBatchCases(o.out, "cases_C05srv", bcases, 8); err != nil {
 			return err
 		}
-		return finishWorlds(o, "C05", worlds, labels, st, 16, map[string]any{"worlds_also_run_through_server": len(bcases)})
+		return finishWorlds(o, "C05", worlds, labels, st, 16, map[string]any{"worlds_also_run_through_server": len(bcases), "revocation_histories_on_one_server": nhist})
 	}
 }
 
@@ -844,6 +901,67 @@ func init() {
 				pending = later
 			}
 		}
+		// histories: the SAME tokens validated again after time has passed — a proof accepted inside its window must be
+		// refused once it has expired, and one refused as too early must be accepted once its not-before has passed
+		// (a validator that remembers verdicts per token would get either wrong)
+		histories := 0
+		for attempt := 0; attempt < 5 && histories == 0; attempt++ {
+			for ns := time.Now().Nanosecond(); ns > 300_000_000; ns = time.Now().Nanosecond() {
+				time.Sleep(5 * time.Millisecond)
+			}
+			t0 := int(time.Now().Unix())
+			type hist struct {
+				w     *World
+				label string
+			}
+			var hs []hist
+			for _, pos := range []string{"invocation", "proof1", "proof2", "proof4", "attestation", "resolver-proof"} {
+				for _, tc := range []timedCase{{pos, 2, -9}, {pos, 100000, 2}, {pos, 3, 1}} {
+					w, label := timedWorld(o.seed, id+len(hs), tc, t0)
+					if err := w.Build(); err != nil {
+						return err
+					}
+					hs = append(hs, hist{w, label})
+				}
+			}
+			okRound := true
+			var roundCases []string
+			roundLabels := map[int]string{}
+			for round, at := range []int{t0, t0 + 3} {
+				for int(time.Now().Unix()) < at {
+					time.Sleep(20 * time.Millisecond)
+				}
+				for i, h := range hs {
+					obs := h.w.Run()
+					if obs.NowBefore != obs.NowAfter || (round == 0 && obs.NowBefore != t0) || (round == 1 && obs.NowBefore < t0+3) {
+						okRound = false
+						break
+					}
+					h.w.ID = id + round*len(hs) + i
+					roundLabels[h.w.ID] = fmt.Sprintf("history %s, validation %d of the same tokens at t0%+d", h.label, round+1, obs.NowBefore-t0)
+					roundCases = append(roundCases, h.w.Coq(obs))
+					st.Worlds++
+					st.Kinds["history"]++
+					if obs.Authorized {
+						st.Authorized++
+					}
+					st.Signatures[fmt.Sprintf("history|%s|%d|%v", h.label, round, obs.Authorized)]++
+				}
+				if !okRound {
+					break
+				}
+			}
+			if okRound {
+				cases = append(cases, roundCases...)
+				for k, v := range roundLabels {
+					labels[k] = v
+				}
+				id += 2 * len(hs)
+				histories = len(hs)
+			} else {
+				retries++
+			}
+		}
 		if err := writeWorldCases(o.out, "cases_C03", cases, 16, "check_worlds"); err != nil {
 			return err
 		}
@@ -853,7 +971,7 @@ func init() {
 		return writeJSON(o.out, "stats.json", struct {
 			*worldStats
 			Extra map[string]any `json:"extra"`
-		}{st, map[string]any{"retries_because_the_second_changed": retries}})
+		}{st, map[string]any{"retries_because_the_second_changed": retries, "histories_validated_twice": histories}})
 	}
 }
 
